@@ -51,12 +51,17 @@ func (f *FS) TraceStart() {
 	}
 	f.tr = &traceState{cmd: cmd, log: lf.Name()}
 	// wait until strace is attached: a marker must show up in the log
-	for i := 0; i < 400; i++ {
+	attached := false
+	for i := 0; i < 6000; i++ {
 		os.Mkdir(markDir+"/attach", 0o777)
 		if b, err := os.ReadFile(lf.Name()); err == nil && strings.Contains(string(b), hexEscape(markDir+"/attach")) {
+			attached = true
 			break
 		}
 		time.Sleep(5 * time.Millisecond)
+	}
+	if !attached {
+		panic("strace did not attach within 30 s")
 	}
 	// strace attaches the threads of the process one by one: give it time to reach all of them
 	time.Sleep(150 * time.Millisecond)
@@ -101,11 +106,16 @@ func (f *FS) TraceStop() {
 	}
 	os.Mkdir(markDir+"/end", 0o777)
 	// wait until the end marker is in the log, then detach
-	for i := 0; i < 400; i++ {
+	seenEnd := false
+	for i := 0; i < 6000; i++ {
 		if b, err := os.ReadFile(f.tr.log); err == nil && strings.Contains(string(b), hexEscape(markDir+"/end")) {
+			seenEnd = true
 			break
 		}
 		time.Sleep(5 * time.Millisecond)
+	}
+	if !seenEnd {
+		panic("strace log does not contain the end marker after 30 s")
 	}
 	f.tr.cmd.Process.Signal(os.Interrupt)
 	f.tr.cmd.Wait()
